@@ -183,14 +183,17 @@ func (fr *frame) get(key ssa.Value) value {
 		}
 		if ok {
 			if _, isBad := (*r).(poison); isBad {
-				panic(unsupported{"global:" + key.String()})
+				panic(unsupported{reason: "global:" + key.String()})
 			}
 			return r
 		}
-		panic(unsupported{"global (no storage): " + key.String()})
+		panic(unsupported{reason: "global (no storage): " + key.String()})
 	}
 	if ix, ok := fr.info.idx[key]; ok {
 		v := fr.env[ix]
+		if _, isP := v.(poison); isP {
+			panic(unsupported{reason: "use of a value whose initialiser could not be executed: " + key.Name()})
+		}
 		if v == nil {
 			panic(fmt.Sprintf("get: unset value %s in %s", key.Name(), fr.fn))
 		}
@@ -694,13 +697,13 @@ func callSSA(i *interpreter, caller *frame, callpos token.Pos, fn *ssa.Function,
 	case polStub:
 		return zeroResults(fn)
 	case polUnsupported:
-		panic(unsupported{"call:" + info.name})
+		panic(unsupported{reason: "call:" + info.name})
 	}
 	if fn.Blocks == nil {
-		panic(unsupported{"no code for function: " + info.name})
+		panic(unsupported{reason: "no code for function: " + info.name})
 	}
 	if fn.TypeParams().Len() > 0 && len(fn.TypeArgs()) == 0 {
-		panic(unsupported{"uninstantiated generic: " + info.name})
+		panic(unsupported{reason: "uninstantiated generic: " + info.name})
 	}
 	if i.funcsSeen != nil {
 		i.funcsSeen[fn] = true
@@ -742,6 +745,10 @@ func runFrame(fr *frame) {
 			return // normal return
 		}
 		p := recover()
+		if u, ok := p.(unsupported); ok && u.stack == "" {
+			u.stack = stackOf(fr)
+			panic(u)
+		}
 		if isControlPanic(p) {
 			panic(p)
 		}
@@ -779,6 +786,14 @@ func runFrame(fr *frame) {
 			}
 		}
 	}
+}
+
+func stackOf(fr *frame) string {
+	out := ""
+	for n := 0; fr != nil && n < 14; fr, n = fr.caller, n+1 {
+		out += " <- " + fr.fn.String()
+	}
+	return out
 }
 
 func executePhis(fr *frame) []ssa.Instruction {
